@@ -9,7 +9,7 @@ D = decimal.Decimal
 CASES = {'quick': 8000, 'thorough': 100000}
 SMALL_BLOCKS = 4      # runner: every 4th case keeps its stores in 2..10-token blocks
 GATES = {
-    'quick': {'cases_in_small_blocks': 50, 'evaluations': 6000, 'created_meta_items': 1800, 'created_comments': 1200, 'raw_items_inserted': 600, 'from_value_meta': 400,
+    'quick': {'empty_indent_by': 40, 'cases_in_small_blocks': 50, 'evaluations': 6000, 'created_meta_items': 1800, 'created_comments': 1200, 'raw_items_inserted': 600, 'from_value_meta': 400,
               'entry_classes_seen': 13, 'layout:none': 300, 'layout:uniform': 300, 'layout:tabs': 100, 'layout:with-comments': 200,
               'layout:non-uniform': 100, 'meta_view_read_before_indent_by': 1500, 'reconfigured_between_edits': 1000,
               'meta_cleared_before_insert': 200, 'existing_comment_updates': 150},
@@ -88,6 +88,9 @@ def run_case(col, r, idx):
         len(owner.meta)
         col.count('meta_view_read_before_indent_by')
     iby = r.choice(INDENT_BYS)
+    if cname == 'Posting' and r.random() < 0.08:
+        iby = ''            # a posting may keep its meta flush with itself (the entry's children are all just "indented")
+        col.count('empty_indent_by')
     if iby is not None:
         owner.indent_by = iby
     eff_by = owner.indent_by
